@@ -164,6 +164,7 @@ def run(res: Results, idx: Index, tier: str) -> None:
             res.violation("R-C15c", site, key, "the standard export deletes the sidecar although the saved model may reference it: " + "; ".join(miss), s.qualname)
     if not std_removes:
         res.ok("R-C15c", f"{UI}:{s.node.lineno}", f"{UI}::_save_model_proto::standard-sidecar-removal", "the standard branch never deletes a sidecar", s.qualname)
+    rule_d(res, idx)
     # every branch returns the destination
     key = f"{UI}::_save_model_proto::returns-dest"
     rets = [r for r in walk_no_nested(s.node) if isinstance(r, ast.Return)]
@@ -182,3 +183,34 @@ def _kw_const(c: ast.Call, name: str):
         if k.arg == name and isinstance(k.value, ast.Constant):
             return k.value.value
     return None
+
+
+def rule_d(res: Results, idx: Index) -> None:
+    """Mode normalisers: the dispatch sites compare the normalised mode with the literal members of the valid set
+    (`mode == "web"`).  A normaliser therefore has to RETURN the very expression it tested for membership: testing
+    `mode.lower()` but returning `mode` accepts "WEB" and then takes the other branch of every dispatch."""
+    res.rule("R-C15d", "mode normalisers return the expression they validated against the set of valid modes", floor=2)
+    m = idx.module(UI)
+    n = 0
+    for fi in m.funcs.values():
+        if not (fi.name.startswith("_normalize_") and fi.name.endswith("_mode")):
+            continue
+        tests = [c for c in walk_no_nested(fi.node) if isinstance(c, ast.Compare) and len(c.ops) == 1 and isinstance(c.ops[0], (ast.NotIn, ast.In)) and isinstance(c.comparators[0], ast.Name) and c.comparators[0].id.startswith("_VALID")]
+        rets = [r for r in walk_no_nested(fi.node) if isinstance(r, ast.Return) and r.value is not None]
+        if not tests or not rets:
+            continue
+        n += 1
+        key = f"{UI}::{fi.qualname}::returns-validated-value"
+        tested = ast.dump(tests[0].left)
+        bad = None
+        for r in rets:
+            v = r.value
+            while isinstance(v, ast.Call) and (call_name(v) or "") in ("cast", "str") and v.args:
+                v = v.args[-1]
+            if ast.dump(v) != tested:
+                bad = (r, v)
+        if bad:
+            res.violation("R-C15d", f"{UI}:{bad[0].lineno}", key, f"`{fi.name}` validates `{src(tests[0].left, 30)}` against {tests[0].comparators[0].id} but returns `{src(bad[1], 30)}`: a spelling that only passes after normalisation ('WEB') is returned as given, and the dispatch `mode == 'web'` then takes the standard branch (sidecar file, stale sidecar kept)", fi.qualname)
+        else:
+            res.ok("R-C15d", f"{UI}:{rets[0].lineno}", key, "returns the validated (normalised) value", fi.qualname)
+    res.analysed["mode_normalisers"] = n
